@@ -621,6 +621,62 @@ def run_legacy(spec, res):
                 res.sample(dict(legacy_mode=m.name, maps_to=getattr(t, "name", None)))
 
 
+def run_sampling(spec, res):
+    """the helpers built on the (cached) enumeration - sample_all_tokenizers, sample_tokenizers_for_test, all_tokenizers_set - must
+    leave the enumeration as it was. Quick tier: the enumeration they see is a stand-in (a real all_instances slice of ~650
+    tokenizers plus the always-included test tokenizers) bound into the module in place of the 5.8M list; every order of the three
+    helpers and sample sizes is run, the list is compared object by object after each call (the thorough tier does the same on the
+    real enumeration in the un-sliced pass)."""
+    import functools
+    import itertools as it
+
+    from maze_dataset.tokenization import all_tokenizers as AT
+
+    L = lib()
+    pins = dict(coord=dict(allow=[0]), path=dict(allow=[0, 1, 2]))  # 3 sequencers/targets x 1 coord x 216 adjacency x 3 path tokenizers
+    cache = {}
+    stand_in = list(L.all_instances(L.MTM, validation_funcs=make_vf(pins, cache)))
+    for t in AT.EVERY_TEST_TOKENIZERS:
+        if t not in stand_in:
+            stand_in.append(t)
+    rp = dict(kind="sampling")
+    real = AT.get_all_tokenizers
+    calls = [("sample_all", lambda: AT.sample_all_tokenizers(3)), ("sample_test_5", lambda: AT.sample_tokenizers_for_test(5)),
+             ("sample_test_min", lambda: AT.sample_tokenizers_for_test(len(AT.EVERY_TEST_TOKENIZERS))), ("set", lambda: AT.all_tokenizers_set()),
+             ("sample_test_none", lambda: AT.sample_tokenizers_for_test(None))]
+    try:
+        for order in it.permutations(calls, 3):
+            for fn in (AT.all_tokenizers_set, AT._all_tokenizers_except_every_test_tokenizers):
+                if hasattr(fn, "cache_clear"):
+                    fn.cache_clear()
+            lst = list(stand_in)
+            AT.get_all_tokenizers = functools.cache(lambda lst=lst: lst)
+            for k, (nm, fn) in enumerate(order):
+                res.ev()
+                try:
+                    out = fn()
+                except Exception as e:  # noqa: BLE001
+                    res.fail(f"C15|{nm}|raises|{type(e).__name__}", f"{nm} raised {type(e).__name__}: {str(e)[:200]} after {[o[0] for o in order[:k]]}", rp)
+                    break
+                now = AT.get_all_tokenizers()
+                if len(now) != len(stand_in) or any(a is not b for a, b in zip(now, stand_in)):
+                    miss = [t.name for t in stand_in if not any(t is x for x in now)][:2]
+                    res.fail(f"C15|get_all_tokenizers|changed_by|{nm}", f"after {[o[0] for o in order[:k + 1]]} the cached enumeration has {len(now)} entries "
+                             f"({len(stand_in)} before); missing e.g. {miss}", rp)
+                    break
+                if nm.startswith("sample_test") and nm != "sample_test_none":
+                    want_n = 5 if nm == "sample_test_5" else len(AT.EVERY_TEST_TOKENIZERS)
+                    if len(out) != want_n or not all(any(t is x or t == x for x in out) for t in AT.EVERY_TEST_TOKENIZERS):
+                        res.fail(f"C15|{nm}|content", f"{nm} returned {len(out)} tokenizers / without the always-included ones", rp)
+            res.nontrivial(("sampling", tuple(o[0] for o in order)))
+    finally:
+        AT.get_all_tokenizers = real
+        for fn in (AT.all_tokenizers_set, AT._all_tokenizers_except_every_test_tokenizers):
+            if hasattr(fn, "cache_clear"):
+                fn.cache_clear()
+    res.count("sampling_orders", 60)
+
+
 def slice_table(spec):
     """{cfg: [name, hash, hash_int, hash_b64]} of one slice, as the child processes print it"""
     L = lib()
@@ -700,6 +756,31 @@ def run_unsliced(res):
         res.fail("C15|all_instances|get_all_tokenizers|configuration multiset differs from reference product",
                  f"len(get_all_tokenizers()) = {n}, predicted {total}; {len(missing)} missing, {dup} repeated configurations", rp)
     res.count("unsliced_distinct_configurations", int(len(np.unique(got))))
+    # the enumeration is data: using the sampling helpers that are built on it must leave it complete (history: sample, then enumerate again)
+    from maze_dataset.tokenization import all_tokenizers as AT
+
+    try:
+        AT.sample_all_tokenizers(3)
+        s1 = AT.sample_tokenizers_for_test(5)
+        s2 = AT.sample_tokenizers_for_test(len(AT.EVERY_TEST_TOKENIZERS))
+        again = get_all_tokenizers()
+        res.ev()
+        if len(again) != n or again is not toks and len(again) != len(toks):
+            res.fail("C15|all_instances|get_all_tokenizers|after_sampling|count", f"after sample_all_tokenizers / sample_tokenizers_for_test, get_all_tokenizers() has "
+                     f"{len(again)} tokenizers, {n} before (predicted {total})", dict(kind="unsliced"))
+        else:
+            got2 = np.fromiter((int(digest(repr(key_of(t, icache) if type(t) is L.MTM else None)), 16) for t in again), dtype=np.uint64, count=len(again))
+            got2.sort()
+            if not np.array_equal(got2, got):
+                res.fail("C15|all_instances|get_all_tokenizers|after_sampling|multiset", "after the sampling helpers ran, the enumeration holds other configurations than before",
+                         dict(kind="unsliced"))
+        if len(s1) != 5 or len(s2) != len(AT.EVERY_TEST_TOKENIZERS) or len(set(s1)) != 5:
+            res.fail("C15|sample_tokenizers_for_test|size", f"samples of size {len(s1)} (5 asked), {len(s2)} ({len(AT.EVERY_TEST_TOKENIZERS)} asked)", dict(kind="unsliced"))
+        res.count("unsliced_after_sampling_checked")
+    except MemoryError:
+        raise
+    except Exception as e:  # noqa: BLE001
+        res.fail(f"C15|sample_tokenizers_for_test|raises|{type(e).__name__}", f"sampling helpers raised {type(e).__name__}: {str(e)[:200]}", dict(kind="unsliced"))
 
 
 def task(t, res):
@@ -710,6 +791,8 @@ def task(t, res):
         run_elements(t, res)
     elif kind == "legacy":
         run_legacy(t, res)
+    elif kind == "sampling":
+        run_sampling(t, res)
     elif kind == "seed":
         run_seed(t["spec"], res)
     elif kind == "unsliced":
@@ -739,6 +822,8 @@ def replay(d, res):
         run_elements(d, res)
     elif kind == "legacy":
         run_legacy(d, res)
+    elif kind == "sampling":
+        run_sampling(d, res)
     elif kind == "seed":
         run_seed(d["spec"], res)
     elif kind == "unsliced":
@@ -850,7 +935,7 @@ def task_list(tier):
     specs += census_specs(S_STRUCT if quick else S_NAMES, 12, 6, load_diagonal=not quick)
     tasks = [dict(kind="slice", spec=s) for s in specs]
     tasks += [dict(kind="elements", families=[f]) for f in ELEMENT_FAMILIES]
-    tasks += [dict(kind="legacy")]
+    tasks += [dict(kind="legacy"), dict(kind="sampling")]
     tasks += [dict(kind="seed", spec=dict(seed_spec(), seed=s)) for s in SEEDS]
     from . import c15_hist
 
